@@ -112,11 +112,150 @@ Section C09Ext.
     - apply norm_eq_filter. intros x. rewrite R6. reflexivity.
   Qed.
 
+  (* ---------------------------------------------------------------- == between posets over
+     different comparisons *)
+  Section Eq2.
+    Variable la lb : E -> E -> bool.
+    Hypothesis POa : partial_order E la eqb.
+    Hypothesis POb : partial_order E lb eqb.
+
+    Definition agree (l1 : list E) (e : E) : bool :=
+      forallb (fun y => eqb y e || Bool.eqb (la y e) (lb y e)) l1.
+
+    Lemma mb_char l1 l2 i2 e d2 j :
+      NoDup l1 -> NoDup l2 -> (forall x, In x l1 <-> In x l2) -> nth_error l2 i2 = Some e ->
+      (forall j2, In j2 d2 <-> In j2 (strict_rel E lb l2 false i2)) ->
+      (In j (map_back E eqb l1 l2 d2) <-> exists y, nth_error l1 j = Some y /\ lb y e = true /\ y <> e).
+    Proof.
+      intros N1 N2 Hs Hi2 Hd. unfold map_back. rewrite in_flat_map. split.
+      - intros [j2 [Hj2 Hin]]. apply Hd in Hj2. apply In_strict_rel in Hj2. cbn [ldir] in Hj2.
+        unfold PosetSpec.lq in Hj2. rewrite Hi2 in Hj2. destruct Hj2 as [Hle Hne].
+        destruct (nth_error l2 j2) as [x|] eqn:Hx; [|discriminate].
+        destruct (index_of E eqb x l1) as [j'|] eqn:Hidx; [|destruct Hin].
+        destruct Hin as [<- | []]. apply (index_of_Some E la eqb POa) in Hidx.
+        exists x. split; [exact Hidx|]. split; [exact Hle|]. intros ->. apply Hne.
+        eapply (NoDup_nth_error_inj _ l2); eauto.
+      - intros [y [Hy [Hle Hne]]].
+        assert (Hy2 : In y l2) by (apply Hs; eapply nth_error_In; eauto).
+        apply In_nth_error in Hy2. destruct Hy2 as [j2 Hj2]. exists j2. split.
+        + apply Hd. apply In_strict_rel. cbn [ldir]. unfold PosetSpec.lq. rewrite Hj2, Hi2.
+          split; [exact Hle|]. intros ->. apply Hne. congruence.
+        + rewrite Hj2, (index_of_nth E la eqb POa l1 j y N1 Hy). left. reflexivity.
+    Qed.
+
+    Lemma same_setb_agree l1 l2 i i2 e d1 d2 :
+      NoDup l1 -> NoDup l2 -> (forall x, In x l1 <-> In x l2) ->
+      nth_error l1 i = Some e -> nth_error l2 i2 = Some e ->
+      (forall j, In j d1 <-> In j (strict_rel E la l1 false i)) ->
+      (forall j, In j d2 <-> In j (strict_rel E lb l2 false i2)) ->
+      same_setb d1 (map_back E eqb l1 l2 d2) = agree l1 e.
+    Proof.
+      intros N1 N2 Hs Hi Hi2 H1 H2. apply bool_eq_iff.
+      assert (Hd1 : forall j, In j d1 <-> exists y, nth_error l1 j = Some y /\ la y e = true /\ y <> e).
+      { intros j. rewrite H1, In_strict_rel. cbn [ldir]. unfold PosetSpec.lq. rewrite Hi. split.
+        - intros [Hle Hne]. destruct (nth_error l1 j) as [y|] eqn:Hy; [|discriminate].
+          exists y. split; [reflexivity|]. split; [exact Hle|]. intros ->. apply Hne.
+          eapply (NoDup_nth_error_inj _ l1); eauto.
+        - intros [y [Hy [Hle Hne]]]. rewrite Hy. split; [exact Hle|]. intros ->. apply Hne. congruence. }
+      rewrite same_setb_spec. unfold agree. rewrite forallb_forall. split.
+      - intros Heq y Hy. destruct (eqb y e) eqn:Hye; [reflexivity|]. cbn [orb].
+        assert (Hne : y <> e) by (intros ->; rewrite (proj2 (po_eqb _ _ _ POa e e) eq_refl) in Hye; discriminate).
+        apply In_nth_error in Hy. destruct Hy as [j Hj].
+        apply eqb_true_iff. apply bool_eq_iff. split; intros H.
+        + assert (In j d1) as Hin by (apply Hd1; eauto).
+          apply Heq in Hin. apply (mb_char l1 l2 i2 e d2 j N1 N2 Hs Hi2 H2) in Hin.
+          destruct Hin as [y' [Hy' [Hle _]]]. congruence.
+        + assert (In j (map_back E eqb l1 l2 d2)) as Hin by (apply (mb_char l1 l2 i2 e d2 j N1 N2 Hs Hi2 H2); eauto).
+          apply Heq in Hin. apply Hd1 in Hin. destruct Hin as [y' [Hy' [Hle _]]]. congruence.
+      - intros Hag j. rewrite Hd1, (mb_char l1 l2 i2 e d2 j N1 N2 Hs Hi2 H2).
+        split; intros [y [Hy [Hle Hne]]]; exists y; (split; [exact Hy|]); (split; [|exact Hne]);
+          assert (Hin : In y l1) by (eapply nth_error_In; eauto);
+          specialize (Hag y Hin);
+          (destruct (eqb y e) eqn:Hye; [apply (po_eqb _ _ _ POa) in Hye; contradiction|]);
+          cbn [orb] in Hag; apply eqb_prop in Hag; congruence.
+    Qed.
+
+    Lemma eq_loop2_ok : forall is s1 s2,
+      C09Query.Sound E la [] s1 -> C09Query.Sound E lb [] s2 ->
+      (forall e, In e (els s1) <-> In e (els s2)) -> (forall i, In i is -> i < size E s1) ->
+      let r := eq_loop2 E eqb la lb is s1 s2 in
+      C09Query.Sound E la [] (fst (fst r)) /\ ext s1 (fst (fst r)) /\
+      C09Query.Sound E lb [] (snd (fst r)) /\ ext s2 (snd (fst r)) /\
+      snd r = forallb (fun i => match nth_error (els s1) i with Some e => agree (els s1) e | None => true end) is.
+    Proof.
+      induction is as [|i is IH]; intros s1 s2 S1 S2 Hs Hr; cbn [eq_loop2 forallb fst snd].
+      - auto using ext_refl.
+      - assert (Hi : i < size E s1) by (apply Hr; left; reflexivity).
+        destruct (nth_error (els s1) i) as [e|] eqn:He; [|apply nth_error_None in He; unfold size in Hi; lia].
+        assert (He2 : In e (els s2)) by (apply Hs; eapply nth_error_In; eauto).
+        destruct (index_of_In E la eqb POa e _ He2) as [i2 Hi2]. rewrite Hi2.
+        pose proof (index_of_Some E la eqb POa _ _ _ Hi2) as Hn2.
+        assert (Hi2r : i2 < size E s2) by (unfold size; apply nth_error_Some; congruence).
+        destruct (closed_ok_q E la [] false s1 i S1 Hi) as [A1 [B1 [C1 [D1 _]]]].
+        destruct (closed E la false s1 i) as [s1' d1]. cbn [fst snd] in A1, B1, C1, D1.
+        destruct (closed_ok_q E lb [] false s2 i2 S2 Hi2r) as [A2 [B2 [C2 [D2 _]]]].
+        destruct (closed E lb false s2 i2) as [s2' d2]. cbn [fst snd] in A2, B2, C2, D2.
+        rewrite (same_setb_agree (els s1) (els s2) i i2 e d1 d2
+                   (snd_nodup _ _ _ _ S1) (snd_nodup _ _ _ _ S2) Hs He Hn2 D1 D2).
+        destruct (agree (els s1) e) eqn:Hag.
+        + destruct (IH s1' s2' A1 A2) as [P1 [P2 [P3 [P4 P5]]]].
+          * rewrite (ext_els _ _ _ B1), (ext_els _ _ _ B2). exact Hs.
+          * intros k Hk. unfold size. rewrite (ext_els _ _ _ B1). apply Hr. right. exact Hk.
+          * split; [exact P1|]. split; [eapply ext_trans; eauto|]. split; [exact P3|].
+            split; [eapply ext_trans; eauto|]. rewrite P5, (ext_els _ _ _ B1). reflexivity.
+        + cbn [fst snd]. auto.
+    Qed.
+
+    Lemma forallb_nth_seq {A} (f : A -> bool) (l : list A) :
+      forallb (fun i => match nth_error l i with Some e => f e | None => true end) (seq 0 (length l)) = forallb f l.
+    Proof.
+      apply bool_eq_iff. rewrite !forallb_forall. split.
+      - intros H x Hx. apply In_nth_error in Hx. destruct Hx as [i Hi].
+        specialize (H i). rewrite Hi in H. apply H. apply In_seq0. apply nth_error_Some. congruence.
+      - intros H i _. destruct (nth_error l i) eqn:Hi; [|reflexivity]. apply H. eapply nth_error_In; eauto.
+    Qed.
+
+    Lemma poset_eq2_ok s1 s2 :
+      C09Query.Sound E la [] s1 -> C09Query.Sound E lb [] s2 ->
+      let r := poset_eq2 E eqb la lb s1 s2 in
+      C09Query.Sound E la [] (fst (fst r)) /\ ext s1 (fst (fst r)) /\
+      C09Query.Sound E lb [] (snd (fst r)) /\ ext s2 (snd (fst r)) /\
+      snd r = spec_eq2 E eqb la lb (els s1) (els s2).
+    Proof.
+      intros S1 S2. unfold poset_eq2, spec_eq2.
+      change (spec_eq E eqb (els s1) (els s2)) with (set_eqE E eqb (els s1) (els s2)).
+      destruct (set_eqE E eqb (els s1) (els s2)) eqn:Hse.
+      - pose proof (proj1 (set_eqE_spec E la eqb POa _ _) Hse) as Hse'.
+        destruct (eq_loop2_ok (seq 0 (size E s1)) s1 s2 S1 S2 Hse') as [P1 [P2 [P3 [P4 P5]]]].
+        { intros i Hi. apply In_seq0 in Hi. exact Hi. }
+        split; [exact P1|]. split; [exact P2|]. split; [exact P3|]. split; [exact P4|].
+        rewrite P5. unfold size. rewrite (forallb_nth_seq (agree (els s1)) (els s1)). reflexivity.
+      - cbn [fst snd andb]. auto using ext_refl.
+    Qed.
+
+    Lemma eq_loop2_id is : forall s1 s2,
+      (use_cache s1 = false -> fst (fst (eq_loop2 E eqb la lb is s1 s2)) = s1) /\
+      (use_cache s2 = false -> snd (fst (eq_loop2 E eqb la lb is s1 s2)) = s2).
+    Proof.
+      induction is as [|i is IH]; intros s1 s2; cbn [eq_loop2]; [split; reflexivity|].
+      destruct (nth_error (els s1) i); [|split; reflexivity].
+      destruct (index_of E eqb e (els s2)) as [i2|]; [|split; reflexivity].
+      pose proof (closed_id E la false s1 i) as H1. destruct (closed E la false s1 i) as [s1' d1].
+      pose proof (closed_id E lb false s2 i2) as H2. destruct (closed E lb false s2 i2) as [s2' d2].
+      cbn [fst] in H1, H2. destruct (same_setb d1 _).
+      - destruct (IH s1' s2') as [I1 I2]. split; intros H.
+        + rewrite <- (H1 H) in *. apply I1. rewrite (H1 H). exact H.
+        + rewrite <- (H2 H) in *. apply I2. rewrite (H2 H). exact H.
+      - cbn [fst snd]. split; intros H; [apply H1 | apply H2]; exact H.
+    Qed.
+  End Eq2.
+
   (* ---------------------------------------------------------------- one call *)
   Definition xvalid (s : state) (o : xop E) : Prop :=
     match o with
     | XB o => valid_op E s o
     | XSup _ l => forall x, In x l -> x < size E s
+    | XEq2 other _ leq2 _ => NoDup other /\ partial_order E leq2 eqb
     | _ => True
     end.
 
@@ -127,7 +266,7 @@ Section C09Ext.
     els (fst (xstep s o)) = fst (xspec_step (els s) (use_cache s) o) /\
     use_cache (fst (xstep s o)) = use_cache s.
   Proof.
-    intros HI Hv. destruct o as [o | e mv | cv up | up l]; cbn [PosetExt.xstep PosetExt.xspec_step xvalid] in *.
+    intros HI Hv. destruct o as [o | e mv | cv up | up l | other oc leq2 rev]; cbn [PosetExt.xstep PosetExt.xspec_step xvalid] in *.
     - destruct (step_ok E leq eqb PO s o HI Hv) as [A [B [C D]]].
       destruct (step E leq eqb s o) as [s' r]. destruct (spec_step E leq eqb (els s) (use_cache s) o) as [l' r'].
       cbn [fst snd] in *. subst. auto.
@@ -151,6 +290,27 @@ Section C09Ext.
     - destruct (step_ok E leq eqb PO s (QBound up l) HI Hv) as [A [B [C D]]].
       cbn [Poset.step PosetSpec.spec_step] in A, B, C, D.
       destruct (bound_q E leq up s l) as [s' r]. cbn [fst snd] in *. subst. auto.
+    - destruct HI as [HS HT]. destruct Hv as [Hnd PO2].
+      pose proof (init_sound E leq2 [] other oc Hnd) as HS2.
+      destruct rev.
+      + destruct (poset_eq2_ok leq2 leq PO2 (init E other oc) s HS2 HS) as [_ [_ [A [B C]]]].
+        destruct (eq_loop2_id leq2 leq (seq 0 (size E (init E other oc))) (init E other oc) s) as [_ Hid].
+        unfold poset_eq2 in *.
+        destruct (set_eqE E eqb (els (init E other oc)) (els s)).
+        * destruct (eq_loop2 E eqb leq2 leq _ (init E other oc) s) as [[so s'] b]. cbn [fst snd] in *.
+          split; [split; [exact A|]|].
+          -- intros Hc. rewrite (ext_uc _ _ _ B) in Hc. rewrite (Hid Hc). apply HT. exact Hc.
+          -- split; [rewrite C; reflexivity|]. split; [apply (ext_els _ _ _ B) | apply (ext_uc _ _ _ B)].
+        * cbn [fst snd] in *. split; [split; assumption|]. split; [rewrite C; reflexivity | auto].
+      + destruct (poset_eq2_ok leq leq2 PO s (init E other oc) HS HS2) as [A [B [_ [_ C]]]].
+        destruct (eq_loop2_id leq leq2 (seq 0 (size E s)) s (init E other oc)) as [Hid _].
+        unfold poset_eq2 in *.
+        destruct (set_eqE E eqb (els s) (els (init E other oc))).
+        * destruct (eq_loop2 E eqb leq leq2 _ s (init E other oc)) as [[s' so] b]. cbn [fst snd] in *.
+          split; [split; [exact A|]|].
+          -- intros Hc. rewrite (ext_uc _ _ _ B) in Hc. rewrite (Hid Hc). apply HT. exact Hc.
+          -- split; [rewrite C; reflexivity|]. split; [apply (ext_els _ _ _ B) | apply (ext_uc _ _ _ B)].
+        * cbn [fst snd] in *. split; [split; assumption|]. split; [rewrite C; reflexivity | auto].
   Qed.
 
   (* ---------------------------------------------------------------- all histories *)
@@ -167,6 +327,26 @@ Section C09Ext.
     intros H. destruct o; cbn [xvalid]; auto.
     - apply valid_op_els. exact H.
     - unfold size. rewrite H. auto.
+  Qed.
+
+  (* == is symmetric in what it computes: both directions equal the same symmetric meaning *)
+  Lemma spec_eq2_sym la lb l1 l2 :
+    NoDup l1 -> NoDup l2 -> spec_eq2 E eqb la lb l1 l2 = spec_eq2 E eqb lb la l2 l1.
+  Proof.
+    intros N1 N2. unfold spec_eq2, spec_eq.
+    destruct (forallb (fun e => memE E eqb e l2) l1 && forallb (fun e => memE E eqb e l1) l2) eqn:Hs.
+    - rewrite andb_comm in Hs. rewrite Hs. cbn [andb]. rewrite andb_comm in Hs.
+      apply andb_true_iff in Hs. destruct Hs as [H12 H21]. rewrite forallb_forall in H12, H21.
+      apply bool_eq_iff. rewrite !forallb_forall. split; intros H x Hx; apply forallb_forall; intros y Hy.
+      + assert (Hx1 : In x l1) by (apply (memE_In E leq eqb PO); apply H21; exact Hx).
+        assert (Hy1 : In y l1) by (apply (memE_In E leq eqb PO); apply H21; exact Hy).
+        pose proof (H x Hx1) as Hrow. rewrite forallb_forall in Hrow. specialize (Hrow y Hy1).
+        destruct (eqb y x); [reflexivity|]. cbn [orb] in *. apply eqb_prop in Hrow. rewrite Hrow. apply eqb_reflx.
+      + assert (Hx2 : In x l2) by (apply (memE_In E leq eqb PO); apply H12; exact Hx).
+        assert (Hy2 : In y l2) by (apply (memE_In E leq eqb PO); apply H12; exact Hy).
+        pose proof (H x Hx2) as Hrow. rewrite forallb_forall in Hrow. specialize (Hrow y Hy2).
+        destruct (eqb y x); [reflexivity|]. cbn [orb] in *. apply eqb_prop in Hrow. rewrite Hrow. apply eqb_reflx.
+    - rewrite andb_comm in Hs. rewrite Hs. reflexivity.
   Qed.
 
   Theorem xrun_ok : forall ops s,
